@@ -34,7 +34,7 @@ STRUCT_OPS = ["root_attach", "negra_mark_heads", "mark_heads_negra", "mark_heads
 
 
 def budget(tier):
-    return 6000 if tier == "quick" else 600000
+    return 12000 if tier == "quick" else 600000
 
 
 def real_op(name):
